@@ -86,6 +86,17 @@ def regex_unit(ctx):
         except R.Unsupported as e:
             add(rule + ':unambiguous-repetition', 'unknown',
                 'regex translation', str(e))
+        try:
+            bad, unk = R.overlapping_repetitions(pat)
+            add(rule + ':no-self-overlapping-repetition',
+                'failed' if bad else ('unknown' if unk else 'proved'),
+                'no unbounded repetition of %s has a body that matches one '
+                'text both as one iteration and as two (the (x+)* shape: '
+                'exponential backtracking on a failing match)' % rule,
+                '; '.join(bad + unk) or None)
+        except R.Unsupported as e:
+            add(rule + ':no-self-overlapping-repetition', 'unknown',
+                'regex translation', str(e))
     return dict(obligations=out,
                 trusted=['z3 regular-expression theory',
                          're._parser (pattern parse tree)'])
